@@ -285,6 +285,6 @@ class SVD(Compression):
             latent_data = self.compress(self.data_matrix.T)  # (rank, num_samples)
             latent_min = np.min(latent_data, axis=0)
             latent_max = np.max(latent_data, axis=0)
-            return [(lmin, lmax) for lmin, lmax in zip(latent_min, latent_max)]
+            return [(float(lmin), float(lmax)) for lmin, lmax in zip(latent_min, latent_max)]  # plain floats (serializable)
         else:
             return None
